@@ -1,7 +1,7 @@
 import Bluebell.Convert
 import Bluebell.Props.C01
 import Bluebell.Lemmas.EscLine
-import Bluebell.Lemmas.PegLim
+import Bluebell.Lemmas.BlockLine
 /-!
 # C13 — a backslash makes the next character literal, everywhere
 
@@ -174,57 +174,18 @@ At a backslash none of the keyword-led block rules (lists, tables, LONGTITLE, FO
 grammar by the first-character analysis — so each of the four block-level choices evaluates to
 whatever `line` evaluates to: the paragraph of `C13_escaped_line_is_its_text`. -/
 
-def choiceAlts (g : Grammar) (rule : String) : PExps :=
-  match g.lookup rule with
-  | some (.choice es) => es
-  | _ => .nil
-
-theorem C13_block_rules_choose_line :
-    (["block_elements", "speech_block_elements"].all fun r =>
-        aknExec.lookup r == some (.choice (choiceAlts aknExec r)) &&
-        firstCandidate aknExec 100 (some '\\') (choiceAlts aknExec r) == some "line") = true ∧
-    (aknExec.lookup "block_element" == some (.choice (choiceAlts aknExec "block_element")) &&
-        firstCandidate aknExec 100 (some '\\') (choiceAlts aknExec "block_element") == some "block_elements") = true ∧
-    (aknExec.lookup "hier_block_element" == some (.choice (choiceAlts aknExec "hier_block_element")) &&
-        firstCandidate aknExec 100 (some '\\') (choiceAlts aknExec "hier_block_element") == some "block_element") = true ∧
-    (aknExec.lookup "speech_block_element" == some (.choice (choiceAlts aknExec "speech_block_element")) &&
-        firstCandidate aknExec 100 (some '\\') (choiceAlts aknExec "speech_block_element") == some "speech_block_elements") = true := by
-  decide +kernel
+theorem C13_block_rules_choose_line : blockChoosesLine '\\' = true := by decide +kernel
 
 theorem C13_block_level_reads_escaped_line (inp : Array Char) (p : Nat) (c : Char) (w : List Char)
     (h : AtEsc inp p (c :: w)) :
     ∃ t, (∀ fuel, toDict inp (fuel + 2) t
             = .node "content" "p" none (some [Item.text (String.ofList (c :: w))]) none none none none none) ∧
-      ∀ r ∈ ["line", "block_elements", "block_element", "hier_block_element", "speech_block_elements", "speech_block_element"],
-        Lim aknExec inp (.ref r) p (.ok t) := by
-  have hp : p ≤ inp.size := by
-    rcases Nat.lt_or_ge p inp.size with hlt | hge
-    · omega
-    · have := h.1; rw [Array.getElem?_eq_none hge] at this; cases this
+      ∀ r ∈ blockLevelRules, Lim aknExec inp (.ref r) p (.ok t) := by
   obtain ⟨n0, h0⟩ := line_of_escapes inp p c w h
   obtain ⟨te, stop, ht⟩ := h0 n0 (Nat.le_refl _)
-  -- the tree is the same for every fuel ≥ n0 (the result is fuel-independent)
   have hline : Lim aknExec inp (.ref "line") p (.ok _) :=
     ⟨n0, fun n hn => by rw [eval_mono aknExec inp _ p hn (by rw [ht]; trivial), ht]⟩
-  refine ⟨_, fun fuel => toDict_line inp fuel p stop te c w h, ?_⟩
-  obtain ⟨⟨hbe, hsbe⟩, hb, hh, hs⟩ : _ ∧ _ ∧ _ ∧ _ := by
-    have := C13_block_rules_choose_line
-    simp only [List.all_cons, List.all_nil, Bool.and_true, Bool.and_eq_true, beq_iff_eq] at this
-    exact this
-  have hc : inp[p]? = some '\\' := h.1
-  have l1 := lim_rule_first_candidate akn_wf 100 p hp "block_elements" "line" _ _ hbe.1 (by rw [hc]; exact hbe.2) hline
-  have l2 := lim_rule_first_candidate akn_wf 100 p hp "block_element" "block_elements" _ _ hb.1 (by rw [hc]; exact hb.2) l1
-  have l3 := lim_rule_first_candidate akn_wf 100 p hp "hier_block_element" "block_element" _ _ hh.1 (by rw [hc]; exact hh.2) l2
-  have l4 := lim_rule_first_candidate akn_wf 100 p hp "speech_block_elements" "line" _ _ hsbe.1 (by rw [hc]; exact hsbe.2) hline
-  have l5 := lim_rule_first_candidate akn_wf 100 p hp "speech_block_element" "speech_block_elements" _ _ hs.1 (by rw [hc]; exact hs.2) l4
-  intro r hr
-  simp only [List.mem_cons, List.mem_nil_iff, or_false] at hr
-  rcases hr with rfl | rfl | rfl | rfl | rfl | rfl
-  · exact hline
-  · exact l1
-  · exact l2
-  · exact l3
-  · exact l4
-  · exact l5
+  exact ⟨_, fun fuel => toDict_line inp fuel p stop te c w h,
+    block_rules_follow_line inp p '\\' h.1 C13_block_rules_choose_line _ hline⟩
 
 end Bluebell
